@@ -131,7 +131,7 @@ class Stats:
         self.examples: list = []
 
 
-ALL_PARENTS = 9
+ALL_PARENTS = 14
 
 
 def replay_cases(run: Run, st, griffe, parents: Parents, cases: list, rnd: random.Random, stats: Stats, origin: str, max_parents: int = ALL_PARENTS):
@@ -217,7 +217,7 @@ def _long_one(run: Run, style: str, st, griffe, parents: Parents, n_examples: in
         @settings(max_examples=n_examples, database=None, deadline=None, derandomize=False, phases=[Phase.generate],
                   suppress_health_check=list(HealthCheck))
         @given(hs.sampled_from(first), hs.lists(hs.sampled_from(alphabet), min_size=5, max_size=max_len), hs.sampled_from(last),
-               hs.sampled_from(sorted(["none", "module", "class", "function", "init", "property", "tuplefn", "genfn", "aliasmod"])),
+               hs.sampled_from(sorted(["none", "module", "class", "function", "init", "property", "tuplefn", "genfn", "aliasmod", "tupleprop", "tuple0fn", "gen1fn", "gen2fn", "iterfn"])),
                hs.lists(hs.booleans(), min_size=len(opt_names), max_size=len(opt_names)), hs.integers(0, 11))
         def prop(a, mid, z, parent, optvals, v):
             lines = st.make_fixed_point([a, *mid, z])
@@ -264,7 +264,7 @@ def run_tlc(module: str, cfg: str, **kw):
 # NoCrash must hold on the model and every final state is replayed with every candidate parent, so a regression is a VIOLATION.
 # defect domain: the one recorded defect left (numpy: the empty docstring gives no section) - PlainText fails on the model.
 SMALL_DOMAINS = {
-    ("google", "regress"): [], ("numpy", "regress"): [], ("numpy", "regress2"): [], ("sphinx", "regress"): [],
+    ("google", "regress"): [], ("google", "regress2"): [], ("numpy", "regress"): [], ("numpy", "regress2"): [], ("sphinx", "regress"): [],
     ("numpy", "defect"): ["PlainText"],
 }
 
@@ -347,7 +347,7 @@ def main(tier: str, replay: str | None = None):
             stats = Stats()
             before = sum(h["count"] for h in run.known_hits.values()) + len(run.violations)
             # every candidate parent, except in the one large domain (numpy, 5 lines), where the choice rotates over the cases
-            replay_cases(run, st, griffe, parents, res.cases, rnd, stats, f"tlc:{label}-domain", 3 if len(res.cases) > 3000 and tier == "quick" else ALL_PARENTS)
+            replay_cases(run, st, griffe, parents, res.cases, rnd, stats, f"tlc:{label}-domain", 3 if len(res.cases) > 6000 and tier == "quick" else ALL_PARENTS)
             after = sum(h["count"] for h in run.known_hits.values()) + len(run.violations)
             if SMALL_DOMAINS[style, label]:
                 run.note(f"{style}: {label} domain: TLC reports {res.violated} violated on the model; {after - before} violation(s) of the real parser in its {len(res.cases)} final states")
